@@ -465,11 +465,13 @@ func init() {
 					out := seqArgs(countOf(l, "libvore", "VerifC07RunCount"), tOf(tier, 3, 5), 1, 0)
 					return append(out, seqArgs(countOf(l, "libvore", "VerifC07RunCount"), tOf(tier, 2, 3), 0, 0)...)
 				}},
+			{Name: "c07-run-twin", Overlay: libOverlay("C06/c06.go"), Pkg: "libvore", Entry: "VerifC07Run", Twin: true,
+				Args: func(tier string, l *Loaded) [][]int64 { return [][]int64{{0, 1, 1, 1}} }},
 			{Name: "c07-long", Overlay: libOverlay("C06/c06.go"), Pkg: "libvore", Entry: "VerifC07Long", MaxFailures: 3, Budget: 300_000_000,
 				Args: func(tier string, l *Loaded) [][]int64 {
 					return [][]int64{{0, tOf(tier, 300, 1100)}, {1, tOf(tier, 64, 130)}}
 				}},
-			{Name: "c07-step-classes", Overlay: filesOv("C07/c07_step.go"), Pkg: "files", Entry: "VerifC07StepClasses", Lemma: true,
+			{Name: "c07-step-classes", Overlay: filesOv("C07/c07_step.go"), Pkg: "files", Entry: "VerifC07StepClasses", OptionalLoad: "constructs BufferedFile / Reader states through their unexported fields; the public-API groups c07-run and c07-long decide the property", Lemma: true,
 				Args: func(tier string, l *Loaded) [][]int64 {
 					var out [][]int64
 					for c := 0; c < countOf(l, "files", "VerifC07StepClassesCount"); c++ {
@@ -477,28 +479,38 @@ func init() {
 					}
 					return out
 				}},
-			{Name: "c07-step", Overlay: filesOv("C07/c07_step.go"), Pkg: "files", Entry: "VerifC07Step", Lemma: true, OptionalUnsupported: "lazily defined array",
+			{Name: "c07-step", Overlay: filesOv("C07/c07_step.go"), Pkg: "files", Entry: "VerifC07Step", OptionalLoad: "constructs BufferedFile / Reader states through their unexported fields; the public-API groups c07-run and c07-long decide the property", Lemma: true, OptionalUnsupported: "lazily defined array",
 				Args: func(tier string, l *Loaded) [][]int64 {
 					k := tOf(tier, 3, 4)
 					return [][]int64{{0, k, 0}, {1, k, 0}, {2, k, 0}}
 				}},
-			{Name: "c07-new", Overlay: filesOv("C07/c07_step.go"), Pkg: "files", Entry: "VerifC07New", Lemma: true, OptionalUnsupported: "lazily defined array",
+			{Name: "c07-new", Overlay: filesOv("C07/c07_step.go"), Pkg: "files", Entry: "VerifC07New", OptionalLoad: "constructs BufferedFile / Reader states through their unexported fields; the public-API groups c07-run and c07-long decide the property", Lemma: true, OptionalUnsupported: "lazily defined array",
 				Args: func(tier string, l *Loaded) [][]int64 { return [][]int64{{}} }},
-			{Name: "c07-reader", Overlay: filesOv("C07/c07_step.go"), Pkg: "files", Entry: "VerifC07Reader", Lemma: true, OptionalUnsupported: "lazily defined array",
+			{Name: "c07-reader", Overlay: filesOv("C07/c07_step.go"), Pkg: "files", Entry: "VerifC07Reader", OptionalLoad: "constructs BufferedFile / Reader states through their unexported fields; the public-API groups c07-run and c07-long decide the property", Lemma: true, OptionalUnsupported: "lazily defined array",
 				Args: func(tier string, l *Loaded) [][]int64 { return [][]int64{{0, 3}, {1, 3}} }},
-			{Name: "c07-twin", Overlay: filesOv("C07/c07_step.go"), Pkg: "files", Entry: "VerifC07Step", Twin: true,
+			{Name: "c07-twin", Overlay: filesOv("C07/c07_step.go"), Pkg: "files", Entry: "VerifC07Step", OptionalLoad: "vacuity twin of the white-box lemma groups", Twin: true,
 				Args: func(tier string, l *Loaded) [][]int64 { return [][]int64{{0, 1, 1}} }},
 		}}
 	properties["C20"] = &PropertySpec{ID: "C20",
-		Rule:        "(1) real pathMatches vs the recursive definition of '*': patterns of length 0..4 (thorough 5) and names of length 0..5 over all printable ASCII except '/', every byte symbolic; (2) real ParsePath(p).GetFileList(\".\") over the model file system: trees of depth <= 2 with up to 2 entries per directory, symbolic 1-byte names over {a,b}, symbolic is-directory bits, patterns of 1..2 segments of 1..2 bytes over {a,b,*}; result compared as a set, no duplicates, no directories; (3) trees of depth 3 with fixed names per level (aa, ab / a, b / a [thorough: a, b]) and symbolic kind of every entry (absent, file, directory with symbolic content), patterns of 1..3 segments chosen symbolically among literal and starred spellings that match one or both names of a level, written relative or as an absolute path below the working directory (symbolic)",
+		Rule:        "(1) real pathMatches vs the recursive definition of '*': patterns of length 0..4 (thorough 5) and names of length 0..5 over all printable ASCII except '/', every byte symbolic, and the same through the exported entry points (one file with a symbolic name of length 1..4, pattern of length 1..3; thorough 5 / 4); (2) real ParsePath(p).GetFileList(\".\") over the model file system: trees of depth <= 2 with up to 2 entries per directory, symbolic 1-byte names over {a,b}, symbolic is-directory bits, patterns of 1..2 segments of 1..2 bytes over {a,b,*}; result compared as a set, no duplicates, no directories; (3) trees of depth 3 with fixed names per level (aa, ab / a, b / a [thorough: a, b]) and symbolic kind of every entry (absent, file, directory with symbolic content), patterns of 1..3 segments chosen symbolically among literal and starred spellings that match one or both names of a level, written relative or as an absolute path below the working directory (symbolic)",
 		Assumptions: []string{"directory segments made only of stars and ./.. segments are excluded (as the property states)", "absolute patterns are explored only below the working directory", "ReadDir failing is modelled as the code treats it (empty)"},
 		Groups: []JobGroup{
-			{Name: "c20-seg", Overlay: filesOv("C20/c20.go"), Pkg: "files", Entry: "VerifC20Seg",
+			{Name: "c20-seg", Overlay: filesOv("C20/c20.go", "C20/c20_seg.go"), Pkg: "files", Entry: "VerifC20Seg", OptionalLoad: "calls the unexported segment matcher directly; c20-seg-fs makes the same comparison through ParsePath/GetFileList",
 				Args: func(tier string, l *Loaded) [][]int64 {
 					var out [][]int64
 					for p := int64(0); p <= tOf(tier, 4, 5); p++ {
 						for t := int64(0); t <= tOf(tier, 5, 5); t++ {
 							out = append(out, []int64{p, t, 0})
+						}
+					}
+					return out
+				}},
+			{Name: "c20-seg-fs", Overlay: filesOv("C20/c20.go"), Pkg: "files", Entry: "VerifC20SegFS",
+				Args: func(tier string, l *Loaded) [][]int64 {
+					var out [][]int64
+					for p := int64(1); p <= tOf(tier, 3, 4); p++ {
+						for t := int64(1); t <= tOf(tier, 4, 5); t++ {
+							out = append(out, []int64{p, t})
 						}
 					}
 					return out
@@ -512,7 +524,7 @@ func init() {
 					}
 					return [][]int64{{3, 0}, {2, 0}, {1, 0}}
 				}},
-			{Name: "c20-twin", Overlay: filesOv("C20/c20.go"), Pkg: "files", Entry: "VerifC20Seg", Twin: true,
+			{Name: "c20-twin", Overlay: filesOv("C20/c20.go", "C20/c20_seg.go"), Pkg: "files", Entry: "VerifC20Seg", OptionalLoad: "vacuity twin of the white-box group", Twin: true,
 				Args: func(tier string, l *Loaded) [][]int64 { return [][]int64{{1, 1, 1}} }},
 		}}
 	properties["C14"] = &PropertySpec{ID: "C14",
